@@ -39,6 +39,7 @@ Rewrite rules (global, always on; each application is logged):
       structs: derive kept only for Clone/Copy/Default/PartialEq/Eq) #[doc..] and doc comments removed; visibility
       `pub(crate)`/`pub(super)`/private -> `pub` for fields and items; `const fn` -> `fn`.
   R10 byte-string literals b".." in function bodies -> `&[0x.., ..]` (same bytes; Verus does not model literal contents)
+  R12 `if let P = E && C { B }` without `else` -> `if let P = E { if C { B } }` (Verus has no let-chains)
   R2  `trace!(..);` statements removed; `debug_assert!(e[, msg..])` -> `assert(e)` (becomes a
       proof obligation); `debug_assert_eq!(a, b..)` -> `assert(a == b)`.
 """
@@ -374,6 +375,58 @@ def make_fields_pub(text, kind, log):
 LOOP_KW = {"loop", "while", "for"}
 
 
+def rewrite_let_chains(text, log):
+    """R12: `if let P = E && C { B }` (no `else`) -> `if let P = E { if C { B } }`.  Verus has no let-chains; without an else
+    branch the two forms are the same program.  Chains with a second `let`, or with an `else`, are left alone (Verus then
+    rejects the unit: inconclusive)."""
+    for _round in range(20):
+        toks = [t for t in rs.tokenize(text)]
+        n = len(toks)
+        done = True
+        i = 0
+        while i < n - 1:
+            if toks[i].kind == "ident" and toks[i].text == "if":
+                j = i + 1
+                while j < n and toks[j].kind in ("ws", "comment"):
+                    j += 1
+                if j < n and toks[j].kind == "ident" and toks[j].text == "let":
+                    # scan to the block's `{` at depth 0, remembering the first `&&` at depth 0
+                    k = j + 1
+                    depth = 0
+                    andand = None
+                    block = None
+                    while k < n:
+                        t = toks[k]
+                        if t.kind == "punct" and t.text in "([":
+                            k = rs.match_close(toks, k) + 1
+                            continue
+                        if t.kind == "punct" and t.text == "{":
+                            block = k
+                            break
+                        if t.kind == "punct" and t.text == "&&" and andand is None:
+                            andand = (k, k)
+                        elif t.kind == "punct" and t.text == "&" and k + 1 < n and toks[k + 1].kind == "punct" and toks[k + 1].text == "&" and toks[k + 1].start == t.end and andand is None:
+                            andand = (k, k + 1)
+                        k += 1
+                    if andand is not None and block is not None and andand[0] < block:
+                        rest = text[toks[andand[1]].end:toks[block].start]
+                        end = rs.match_close(toks, block)
+                        m = end + 1
+                        while m < n and toks[m].kind in ("ws", "comment"):
+                            m += 1
+                        has_else = m < n and toks[m].kind == "ident" and toks[m].text == "else"
+                        if not has_else and not re.search(r"\blet\b", rest):
+                            head = text[:toks[andand[0]].start].rstrip()
+                            text = head + " { if " + rest.strip() + " " + text[toks[block].start:toks[end].end] + " }" + text[toks[end].end:]
+                            log.append("R12 let-chain `if let P = E && C { B }` -> `if let P = E { if C { B } }` (no else branch)")
+                            done = False
+                            break
+            i += 1
+        if done:
+            break
+    return text
+
+
 def splice_fn(text, d, log):
     """text: the fn item after global rules. Insert ret name, spec, loop contracts, hints."""
     nm = d["name"]
@@ -396,6 +449,7 @@ def splice_fn(text, d, log):
         text, c = re.subn(pat, rep, text)
         if c:
             log.append(f"RESUB x{c}: /{pat[:60]}/ => {rep[:60]!r}")
+    text = rewrite_let_chains(text, log)
 
     toks = rs.tokenize(text)
     n = len(toks)
